@@ -934,6 +934,13 @@ def pretty_print_merge_decision(base, decision, config=DefaultConfig):
         if diff:
             config.out.write("%s%s%s:%s\n" % (
                 config.INFO.replace("##", "---"), dkey, note, config.RESET))
+            if dkey == "similar_insert":
+                # Not a diff of base: each entry patches the value inserted
+                # by local into the one inserted by remote
+                for e in diff:
+                    pretty_print_diff(
+                        decision.local_diff[0].valuelist[0], e.diff, path, config)
+                continue
             value = base
             for i, k in enumerate(decision.common_path):
                 if isinstance(value, str):
